@@ -17,7 +17,7 @@ exec 9>$VERIF/out/build/.lock
 flock 9
 if [ ! -x $BIN ]; then
   rm -rf $DIR; mkdir -p $DIR
-  $VERIF/out/bin/vinstr -repo $REPO -verif $VERIF -out $DIR >&2
+  $VERIF/out/bin/vinstr -repo $REPO -verif $VERIF -out $DIR -extra $VERIF/tools/litmus/lit >&2
   (cd $REPO && go test -c -vet=off -tags verif -overlay $DIR/overlay.json -o $BIN go.amzn.com/cmd/aws-lambda-rie) >&2
   # keep only the 3 most recent builds
   ls -1dt $VERIF/out/build/*/ 2>/dev/null | tail -n +4 | xargs -r rm -rf
